@@ -323,9 +323,10 @@ theorem selInWord_spec (w0 : Nat) (hw0 : w0 < 2 ^ 64) : ∀ (fuel w bitIdx find 
       · have := cnt_const_of_zero w0 64 (fun j hj => testBit_ge64 hw0 j hj) bitIdx h; omega
     · rw [if_neg hz]
       have hbit0 : w0.testBit bitIdx = decide (w % 2 = 1) := by
-        have : w.testBit 0 = decide (w % 2 = 1) := Nat.testBit_zero w
-        rw [hw, Nat.testBit_shiftRight] at this
-        simpa using this
+        have h0 : w.testBit 0 = decide (w % 2 = 1) := Nat.testBit_zero w
+        have h1 : w.testBit 0 = w0.testBit bitIdx := by
+          rw [hw, Nat.testBit_shiftRight]; simp
+        rw [← h1, h0]
       by_cases hfound : w % 2 = 1 ∧ find = 0
       · rw [if_pos hfound]
         simp only
@@ -338,7 +339,7 @@ theorem selInWord_spec (w0 : Nat) (hw0 : w0 < 2 ^ 64) : ∀ (fuel w bitIdx find 
         simp only
         obtain ⟨htz1, htz2⟩ := tz64_spec (w / 2)
         have ih := selInWord_spec w0 hw0 fuel (w >>> (tz64 (w / 2) + 1)) (bitIdx + (tz64 (w / 2) + 1))
-          (find - w % 2) (by rw [hw, Nat.shiftRight_add]) (by omega)
+          (find - w % 2) (by rw [hw, ← Nat.shiftRight_add]) (by omega)
         -- the skipped bits are zero
         have hskip : cnt w0 (bitIdx + (tz64 (w / 2) + 1)) = cnt w0 bitIdx + w % 2 := by
           have hstep : cnt w0 (bitIdx + 1) = cnt w0 bitIdx + w % 2 := by
@@ -377,5 +378,207 @@ theorem selInWord_spec (w0 : Nat) (hw0 : w0 < 2 ^ 64) : ∀ (fuel w bitIdx find 
           rw [hres] at ih
           simp only at ih ⊢
           omega
+
+/-! ### `selectIthOne`: across words -/
+
+def WordsLt (ws : List Nat) : Prop := ∀ i, i < ws.length → ws[i]! < 2 ^ 64
+
+theorem onesUpTo_word (B : Nat → Bool) (ws : List Nat) (hp : Packs ws B) (i : Nat) (hi : i < ws.length)
+    (q : Nat) (hq : q ≤ 64) : onesUpTo B (64 * i + q) = onesUpTo B (64 * i) + cnt ws[i]! q := by
+  rw [onesUpTo_add]
+  congr 1
+  apply onesUpTo_congr
+  intro j hj
+  exact (hp i hi j (by omega)).symm
+
+theorem selWords_spec (B : Nat → Bool) (ws : List Nat) (hp : Packs ws B) (hlt : WordsLt ws)
+    (Q T : Nat) (hQ : B Q = true) (hQT : onesUpTo B Q = T) (hQlen : Q < 64 * ws.length) :
+    ∀ (fuel i find : Nat), ws.length + 1 ≤ fuel + i → onesUpTo B (64 * i) + find = T →
+      selWords ws.toArray fuel i find = some Q := by
+  intro fuel
+  induction fuel with
+  | zero =>
+    intro i find hf hinv
+    -- i > ws.length is impossible: 64 i ≤ Q
+    have : 64 * i ≤ Q := by
+      rcases Nat.le_total (64 * i) Q with h | h
+      · exact h
+      · rcases Nat.lt_or_ge Q (64 * i) with h2 | h2
+        · have := onesUpTo_lt_of_one B hQ h2; omega
+        · exact h2
+    omega
+  | succ fuel ih =>
+    intro i find hf hinv
+    have h64 : 64 * i ≤ Q := by
+      rcases Nat.lt_or_ge Q (64 * i) with h2 | h2
+      · have := onesUpTo_lt_of_one B hQ h2; omega
+      · exact h2
+    have hi : i < ws.length := by omega
+    have hw : ws.toArray[i]? = some ws[i]! := by
+      simp [List.getElem?_eq_getElem hi, List.getElem!_eq_getElem?_getD]
+    unfold selWords
+    simp only [hw, Option.bind_eq_bind, Option.bind_some]
+    have hs := selInWord_spec ws[i]! (hlt i hi) 65 ws[i]! 0 find (by simp) (by omega)
+    cases hres : selInWord 65 ws[i]! 0 find with
+    | inl q =>
+      rw [hres] at hs
+      simp only at hs ⊢
+      obtain ⟨h1, h2, h3⟩ := hs
+      have hB : B (64 * i + q) = true := by rw [← hp i hi q h3]; exact h1
+      have hcnt : onesUpTo B (64 * i + q) = T := by
+        rw [onesUpTo_word B ws hp i hi q (by omega), h2]
+        have : cnt ws[i]! 0 = 0 := rfl
+        omega
+      have := select_unique B hB hQ hcnt hQT
+      rw [← this]; congr 1; omega
+    | inr f =>
+      rw [hres] at hs
+      simp only at hs ⊢
+      have h0 : cnt ws[i]! 0 = 0 := rfl
+      apply ih (i + 1) f (by omega)
+      have := onesUpTo_word B ws hp i hi 64 (Nat.le_refl _)
+      rw [show 64 * (i + 1) = 64 * i + 64 by omega, this]
+      omega
+
+/-- `selectIthOne`, given that the select cache entry is the position of a one numbered `≤ i`
+in the same 64-block. -/
+theorem selectIthOne_spec (B : Nat → Bool) (ws : List Nat) (hp : Packs ws B) (hlt : WordsLt ws)
+    (hpos : 0 < onesUpTo B (64 * ws.length)) (selects : BitList)
+    (Q i s : Nat) (hQ : B Q = true) (hQi : onesUpTo B Q = i) (hQlen : Q < 64 * ws.length)
+    (hs : selects.get (i / 64) = some s) (hsB : B s = true) (hsi : onesUpTo B s ≤ i) :
+    selectIthOne ws.toArray (BitList.ofList (len64 ((ranksOf ws).getLastD 0)) (ranksOf ws)) selects i = some Q := by
+  have hsQ : s ≤ Q := by
+    rcases Nat.lt_or_ge Q s with h | h
+    · have := onesUpTo_lt_of_one B hQ h; omega
+    · exact h
+  unfold selectIthOne
+  simp only [hs, Option.bind_eq_bind, Option.bind_some]
+  have hk : s / 64 * 64 / 64 = s / 64 := by omega
+  rw [hk, ranksBL_get B ws hp hpos (s / 64) (by omega)]
+  simp only [Option.bind_some]
+  have hr : onesUpTo B (64 * (s / 64)) ≤ i := Nat.le_trans (onesUpTo_mono B (by omega)) hsi
+  apply selWords_spec B ws hp hlt Q i hQ hQi hQlen
+  · simp
+  · omega
+
+/-! ### the select cache -/
+
+/-- `R` lists, in order, the positions below `i` of the ones numbered 0, 64, 128, … -/
+structure SelOk (B : Nat → Bool) (i : Nat) (R : List Nat) : Prop where
+  len : R.length = (onesUpTo B i + 63) / 64
+  entry : ∀ m, m < R.length → B (R[m]!) = true ∧ onesUpTo B (R[m]!) = 64 * m ∧ R[m]! < i
+  sorted : R.Pairwise (· < ·)
+
+def selStep (acc : List Nat × Nat × Nat) (b : Bool) : List Nat × Nat × Nat :=
+  let (sel, n, i) := acc
+  if b then ((if n % 64 = 0 then i :: sel else sel), n + 1, i + 1) else (sel, n, i + 1)
+
+theorem selectsOf_eq (l : List Bool) : selectsOf l = (l.foldl selStep ([], 0, 0)).1.reverse := rfl
+
+theorem sel_fold (l : List Bool) : ∀ (rest done : List Bool) (sel : List Nat) (n : Nat),
+    l = done ++ rest → n = onesUpTo (bitFn l) done.length → SelOk (bitFn l) done.length sel.reverse →
+    SelOk (bitFn l) l.length (rest.foldl selStep (sel, n, done.length)).1.reverse := by
+  intro rest
+  induction rest with
+  | nil =>
+    intro done sel n hl _ hok
+    simp only [List.append_nil] at hl
+    subst hl; exact hok
+  | cons b rest ih =>
+    intro done sel n hl hn hok
+    have hb : bitFn l done.length = b := by
+      simp [bitFn, hl, List.getD_eq_getElem?_getD]
+    have hl' : l = (done ++ [b]) ++ rest := by simp [hl]
+    have hlen : (done ++ [b]).length = done.length + 1 := by simp
+    simp only [List.foldl_cons]
+    cases b with
+    | false =>
+      have hn' : n = onesUpTo (bitFn l) (done ++ [false]).length := by
+        rw [hlen, onesUpTo_succ, hb]; simpa using hn
+      have := ih (done ++ [false]) sel n hl' hn' (by
+        rw [hlen]
+        refine ⟨?_, ?_, hok.sorted⟩
+        · rw [hok.len, onesUpTo_succ, hb]; simp
+        · intro m hm; have := hok.entry m hm; exact ⟨this.1, this.2.1, by omega⟩)
+      simpa [selStep, hlen] using this
+    | true =>
+      have hn' : n + 1 = onesUpTo (bitFn l) (done ++ [true]).length := by
+        rw [hlen, onesUpTo_succ, hb]; simp [hn]
+      by_cases hm64 : n % 64 = 0
+      · have := ih (done ++ [true]) (done.length :: sel) (n + 1) hl' hn' (by
+          rw [hlen]
+          simp only [List.reverse_cons]
+          refine ⟨?_, ?_, ?_⟩
+          · rw [List.length_append, hok.len, onesUpTo_succ, hb, ← hn]; simp; omega
+          · intro m hm
+            rw [List.length_append] at hm
+            simp only [List.length_singleton] at hm
+            by_cases e : m < sel.reverse.length
+            · have := hok.entry m e
+              rw [List.getElem!_eq_getElem?_getD, List.getElem?_append_left e, ← List.getElem!_eq_getElem?_getD]
+              exact ⟨this.1, this.2.1, by omega⟩
+            · have e' : m = sel.reverse.length := by omega
+              subst e'
+              rw [List.getElem!_eq_getElem?_getD, List.getElem?_concat_length]
+              simp only [Option.getD_some]
+              refine ⟨hb, ?_, by omega⟩
+              rw [← hn, hok.len, ← hn]; omega
+          · rw [List.pairwise_append]
+            refine ⟨hok.sorted, by simp, ?_⟩
+            intro a ha c hc
+            simp only [List.mem_singleton] at hc; subst hc
+            obtain ⟨m, hm, rfl⟩ := List.getElem_of_mem ha
+            have := (hok.entry m hm).2.2
+            rw [List.getElem!_eq_getElem?_getD, List.getElem?_eq_getElem hm] at this
+            simpa using this)
+        simpa [selStep, hlen, hm64] using this
+      · have := ih (done ++ [true]) sel (n + 1) hl' hn' (by
+          rw [hlen]
+          refine ⟨?_, ?_, hok.sorted⟩
+          · rw [hok.len, onesUpTo_succ, hb, ← hn]; simp; omega
+          · intro m hm; have := hok.entry m hm; exact ⟨this.1, this.2.1, by omega⟩)
+        simpa [selStep, hlen, hm64] using this
+
+theorem selectsOf_ok (l : List Bool) : SelOk (bitFn l) l.length (selectsOf l) := by
+  rw [selectsOf_eq]
+  have := sel_fold l l [] [] 0 (by simp) (by simp [onesUpTo]) ⟨by simp [onesUpTo], by intro m hm; simp at hm, by simp⟩
+  simpa using this
+
+theorem wordBits_getD : ∀ (ws : List Nat) (q : Nat),
+    bitFn (wordBits ws) q = if q / 64 < ws.length then ws[q / 64]!.testBit (q % 64) else false
+  | [], q => by simp [wordBits, bitFn]
+  | w :: ws, q => by
+    have ih := wordBits_getD ws (q - 64)
+    have hcons : wordBits (w :: ws) = (List.range 64).map (fun i => w.testBit i) ++ wordBits ws := by
+      simp [wordBits]
+    unfold bitFn at ih ⊢
+    rw [hcons, List.getD_eq_getElem?_getD]
+    by_cases hq : q < 64
+    · rw [List.getElem?_append_left (by simpa using hq)]
+      have h0 : q / 64 = 0 := by omega
+      have hm : q % 64 = q := by omega
+      simp [h0, hm, hq]
+    · rw [List.getElem?_append_right (by simpa using (by omega : 64 ≤ q))]
+      simp only [List.length_map, List.length_range]
+      rw [← List.getD_eq_getElem?_getD, ih]
+      have h1 : (q - 64) / 64 = q / 64 - 1 := by omega
+      have h2 : (q - 64) % 64 = q % 64 := by omega
+      have h3 : q / 64 ≥ 1 := by omega
+      rw [h1, h2]
+      by_cases hlt : q / 64 - 1 < ws.length
+      · have : q / 64 < (w :: ws).length := by simp; omega
+        rw [if_pos hlt, if_pos this]
+        congr 1
+        rw [List.getElem!_eq_getElem?_getD, List.getElem!_eq_getElem?_getD]
+        congr 1
+        rw [show q / 64 = (q / 64 - 1) + 1 by omega, List.getElem?_cons_succ]
+        simp
+      · have : ¬ q / 64 < (w :: ws).length := by simp; omega
+        rw [if_neg hlt, if_neg this]
+
+theorem wordBits_length (ws : List Nat) : (wordBits ws).length = 64 * ws.length := by
+  induction ws with
+  | nil => rfl
+  | cons w ws ih => simp [wordBits] at ih ⊢; omega
 
 end DaeVerif.C11
